@@ -5,7 +5,9 @@ import coqfmt as cf
 RULE = ("cases = every operator applied to every pair of operand classes over a small literal universe (exhaustive: "
         "2 operators x 3x3 operand shapes x several literal choices) + random expression trees of depth <= 4 over "
         "<=4 units and <=3 (possibly renamed) candidates, built with the real `&`/`|` overloads, 1-4 trees per case "
-        "stored together in one Provenance and read back; non-trivial = at least one operator node and a truth table "
+        "stored together in one Provenance and read back; plus WIDE universes (up to 300 units, up to 70 000 candidate values, the "
+        "literals placed on both sides of 127|128, 255|256, 32767|32768, 65535|65536; evaluated in Coq over the compressed "
+        "universe of the positions used); non-trivial = at least one operator node and a truth table "
         "that is not constant; distinct = distinct JSON of the case")
 EXHAUSTIVE = {"quick": False, "thorough": False}
 SHARD = 150
@@ -49,6 +51,17 @@ def gen(rng, tier):
         if any(tree_size(t) > 40 for t in ts):
             ts = [t if tree_size(t) <= 40 else rand_tree(rng, n, k, 2) for t in ts]
         cases.append({"n": n, "k": k, "names": rng.random() < 0.4, "ts": ts})
+    # WIDE universes: many units / many candidate values, of which the formulas use a few positions on both sides of the
+    # boundaries of the narrow integer types (127|128, 255|256, 32767|32768, 65535|65536).  The Coq case is the same
+    # formula over the COMPRESSED universe (position -> rank among the positions used): the logic only compares positions.
+    for _ in range({"quick": 40, "search": 120, "thorough": 400}[tier]):
+        K, S = rng.choice([(129, [0, 127, 128]), (200, [1, 128, 199]), (300, [127, 255, 256]), (40000, [5, 32767, 32768]),
+                           (70000, [0, 65535, 65536]), (129, [128, 3]), (2, [0, 1])])
+        N, SU = rng.choice([(3, [0, 1, 2]), (2, [0, 1]), (129, [0, 127, 128]), (200, [128, 199]), (300, [127, 255, 256]), (3, [2, 0])])
+        nt = rng.randint(1, 3)
+        ts = [rand_tree(rng, len(SU), len(S), rng.choice([1, 2, 2, 3])) for _ in range(nt)]
+        ts = [t if tree_size(t) <= 30 else rand_tree(rng, len(SU), len(S), 2) for t in ts]
+        cases.append({"n": len(SU), "k": len(S), "names": rng.random() < 0.3, "ts": ts, "wide": {"K": K, "S": S, "N": N, "SU": SU}})
     return cases
 
 
@@ -65,13 +78,22 @@ def run_impl(c):
     import numpy as np
     from datascope.utility.provenance import Units, Provenance, Equality, Conjunction, Disjunction
     n, k = c["n"], c["k"]
-    unit_names = ["u%d" % i for i in range(n)] if c["names"] else list(range(n))
-    cand_names = [10 * (i + 1) + 3 for i in range(k)] if c["names"] else list(range(k))
-    units = Units(units=unit_names, candidates=cand_names)
+    w = c.get("wide") or {"K": k, "S": list(range(k)), "N": n, "SU": list(range(n))}
+    N, K, SU, S = w["N"], w["K"], w["SU"], w["S"]
+    unit_names_all = ["u%d" % i for i in range(N)] if c["names"] else list(range(N))
+    cand_names_all = [10 * (i + 1) + 3 for i in range(K)] if c["names"] else list(range(K))
+    units = Units(units=unit_names_all, candidates=cand_names_all)
+    unit_names = [unit_names_all[p] for p in SU]         # the positions the formulas use, in the order of the compressed universe
+    cand_names = [cand_names_all[p] for p in S]
+    urank = dict((p, i) for i, p in enumerate(SU))
+    crank = dict((p, i) for i, p in enumerate(S))
 
     def lits_of(e):
         if isinstance(e, Equality):
-            return [[(units.units_index[e.unit.key], units.candidates_index[e.value])]]
+            # positions outside the universe used (a corrupted literal) are mapped past its end, so that they differ from every
+            # position the model knows
+            up, cp = units.units_index[e.unit.key], units.candidates_index[e.value]
+            return [[(urank.get(up, len(SU) + up % 5), crank.get(cp, len(S) + cp % 5))]]
         if isinstance(e, Conjunction):
             return [[lits_of(x)[0][0] for x in e._elements]]
         if isinstance(e, Disjunction):
@@ -115,9 +137,16 @@ def run_impl(c):
     es = [build(t) for t in c["ts"]]
     assigns = list(itertools.product(range(k), repeat=n))
 
+    def full(x):
+        """the assignment over ALL units (as candidate values): the units the formulas do not use take the first candidate"""
+        vals = [cand_names_all[0]] * N
+        for u, v in enumerate(x):
+            vals[SU[u]] = cand_names[v]
+        return vals
+
     def tables(e):
-        tl = [bool(e.eval([cand_names[v] for v in x])) for x in assigns]
-        ta = [bool(e.eval(np.array([cand_names[v] for v in x]))) for x in assigns]
+        tl = [bool(e.eval(full(x))) for x in assigns]
+        ta = [bool(e.eval(np.array(full(x)))) for x in assigns]
         tm = [bool(e.eval(dict((unit_names[u], cand_names[v]) for u, v in enumerate(x)))) for x in assigns]
         return tl, ta, tm
 
@@ -161,7 +190,8 @@ def distribution(cases, outs):
     kinds = Counter(kd for o in outs if isinstance(o, dict) and "kind" in o for kd in o["kind"])
     dn = Counter(min(len(f), 16) for o in outs if isinstance(o, dict) and "dnf" in o for f in o["dnf"])
     exc = Counter(o["exc"] for o in outs if isinstance(o, dict) and "exc" in o)
-    return {"max_tree_size_bucket": dict(sorted(sizes.items())), "result_classes(0eq,1conj,2disj)": dict(kinds),
+    wide = Counter("%d units x %d candidates" % (c["wide"]["N"], c["wide"]["K"]) for c in cases if c.get("wide"))
+    return {"wide_universes": dict(wide), "max_tree_size_bucket": dict(sorted(sizes.items())), "result_classes(0eq,1conj,2disj)": dict(kinds),
             "disjunct_counts": dict(sorted(dn.items())), "exceptions": dict(exc)}
 
 
